@@ -68,7 +68,7 @@ def run(chk):
                 f.pop("min depth", None)
                 if f["model"] == "plume":
                     f["max depth"] = max(f.get("max depth", 0), f["cross section depths"][-1])
-                elif "max depth" in f:
+                elif isinstance(f.get("max depth"), (int, float)):
                     f["max depth"] = max(f["max depth"], 1.5e5)
         n = len(wj["features"])
         slot = cs.add_world(wj)
@@ -129,7 +129,7 @@ def run(chk):
     from qgen import TOP
     for wi in range(10 if chk.tier == "quick" else 120):
         gg = Gen(rng)
-        base = gg.area_feature("below", False, kinds=("mantle layer", "continental plate"), centre=(0.0, 0.0), size=9e5)
+        base = gg.area_feature("below", False, kinds=("mantle layer", "continental plate"), centre=(0.0, 0.0), size=9e5, depth_arrays=0)
         base.pop("min depth", None)
         base["max depth"] = 6e5
         base["composition models"] = [{"model": "uniform", "compositions": [0, 1, 2, 3], "fractions": [round(rng.uniform(0.1, 1), 3) for _ in range(4)]}]
